@@ -1,6 +1,7 @@
 //! Generators / writers shared between properties (perf.data, ELF64, Breakpad .sym, …).
+pub mod c08;
 pub mod elf;
+pub mod elf_c19;
 pub mod elf_ids;
 pub mod elf_syms;
 pub mod perfdata;
-pub mod c08;
